@@ -292,6 +292,10 @@ Hostile(c, cls, closed) ==
        ELSE /\ out' = [Quiet EXCEPT ![c] = [s |-> <<[t |-> "any"]>>, a |-> {}]]     \* c's own replies are not prescribed
             /\ UNCHANGED svars
 
+(* C09: a connection that never sends CONNECT - it says nothing, pings, subscribes, sends a truncated CONNECT or garbage -
+   and goes away.  It is none of the model's clients: nobody notices anything, nothing remains. *)
+Stranger == out' = Quiet /\ UNCHANGED svars
+
 (* C09, cluster port: a broken gossip / frame payload is rejected; no client notices anything *)
 ClusterHostile == out' = Quiet /\ UNCHANGED svars
 
